@@ -1023,6 +1023,44 @@ def r14(k: Kit) -> None:
                   k.loc(fi, n))
 
 
+def etm_mac_covers_length(k: Kit, rule: str) -> None:
+    """Encrypt-then-MAC authenticates the cleartext length field too."""
+    rep = k.rep
+    from ..flow import depends_on as _dep
+    enc = k.func('encryption.ETMEncryption.encrypt_packet')
+    g = k.cfg(enc)
+    rd = k.rd(enc)
+    signs = [(n, c) for n, c in k.calls_named(enc, 'sign', 'self._mac')]
+    rep.floor(rule, 'ETM tag computations', len(signs), 1)
+    for n, c in signs:
+        deps = _dep(g, rd, n.id, c.args[1]) if len(c.args) > 1 else set()
+        rep.check('header' in deps and any('encrypt' in d or 'cipher' in d
+                                           for d in deps), rule,
+                  key(enc, 'tag over length || ciphertext'),
+                  'mac.sign(seq, header + ciphertext)',
+                  'the tag of an *-etm MAC is computed without the '
+                  'cleartext packet_length: an independent peer (OpenSSH) '
+                  'rejects every packet, and between two such ends the '
+                  'length field can be altered unnoticed', k.loc(enc, n))
+    dec = k.func('encryption.ETMEncryption.decrypt_packet')
+    g2 = k.cfg(dec)
+    rd2 = k.rd(dec)
+    ver = [(n, c) for n, c in k.calls_named(dec, 'verify', 'self._mac')]
+    rep.floor(rule, 'ETM tag verifications', len(ver), 1)
+    from ..flow import expr_sources as _es
+    for n, c in ver:
+        lv, fr = _es(g2, rd2, n.id, c.args[1])
+        exprs = [c.args[1]] + list(lv)
+        whole = any(isinstance(x, ast.Name) and x.id == 'first'
+                    for e in exprs for x in ast.walk(e)
+                    if not any(isinstance(s_, ast.Subscript) and
+                               s_.value is x for s_ in ast.walk(e)))
+        rep.check(whole, rule, key(dec, 'verified over length || ciphertext'),
+                  'mac.verify(seq, first + rest, mac) with first unsliced',
+                  'the received tag is checked over the packet without its '
+                  'length field', k.loc(dec, n))
+
+
 def run(idx, rep, tier):
     k = Kit(idx, rep)
     rep.assumptions += NOT_DECIDED
@@ -1037,6 +1075,12 @@ def run(idx, rep, tier):
     r12(k)
     r13(k)
     r14(k)
+    rep.rule('C01.R16', 'encrypt-then-MAC (ETMEncryption): the tag is '
+             'computed and verified over the cleartext packet_length field '
+             'followed by the ciphertext (the MAC input depends on the '
+             'header on the sending side; on the receiving side the first '
+             'block enters the check unsliced)')
+    etm_mac_covers_length(k, 'C01.R16')
     # R8: the two directions use different integrity / encryption keys and
     # each direction its own parameters: = C02.R2 (key schedule by data flow)
     from .c02 import r2 as c02r2
@@ -1070,3 +1114,22 @@ def run(idx, rep, tier):
     from .shared import share
     from .c09 import r2 as _c09r2
     share(k, 'C01.R15', 'a connection error reaches every channel as an error (= clause of C09.R2): process_connection_close hands the exception to _cleanup at once, also while the channel holds undelivered data with reading paused - a later resume must not turn a MAC failure into a clean EOF', _c09r2, keep=lambda key: 'process_connection_close' in key)
+    rep.rule('C01.R17', 'encryption.get_encryption hands every secret it '
+             'was given to the cipher object: each encryption.new(...) call '
+             'in it names mac_key among its arguments (the AEAD classes '
+             'ignore it) - a call that leaves it to the default keys every '
+             'hmac-* / umac-* tag with the empty string, on both ends '
+             'alike, so the sessions work and anyone can re-tag an altered '
+             'packet')
+    _fge = k.func('encryption.get_encryption')
+    _news = [c for c in ast.walk(_fge.node) if is_call(c, 'new')]
+    rep.floor('C01.R17', 'cipher constructions', len(_news), 1)
+    for _c in _news:
+        _names = {dotted(a) for a in _c.args} | {
+            dotted(kw.value) for kw in _c.keywords}
+        rep.check('mac_key' in _names and 'key' in _names, 'C01.R17',
+                  key(_fge, 'integrity key reaches the cipher object'),
+                  'new(cipher_name, key, iv, mac_alg, mac_key, etm)',
+                  f'`{norm(_c)[:70]}` does not pass mac_key: the MAC of '
+                  'every non-AEAD cipher is keyed with b\'\'',
+                  _fge.loc(_c))
